@@ -1805,7 +1805,9 @@ static void gen_scens(void)
                     continue; /* the legacy definition has no push_many: ABT_ERR_POOL before any allocation */
                 memset(&p, 0, sizeof p);
                 p.fam = FAM_AS, p.api = (short)op, p.src = (short)src, p.tgt = (short)tgt;
-                int fl = F_NOOUT | (tgt != PK_BI ? F_UMAP : 0);
+                int revive = op == O_REVIVE_T || op == O_REVIVE_K || op == O_REVIVE_TO;
+                /* a unit revived into the (world) pool it already belongs to keeps its unit: no allocation */
+                int fl = F_NOOUT | (tgt != PK_BI && !(revive && src == tgt) ? F_UMAP : 0);
                 if (self || op == O_SELF_SCHED || op == O_REVIVE_TO)
                     fl |= F_INULT;
                 if ((op == O_REVIVE_T || op == O_PUSH) && src == PK_BI)
